@@ -156,7 +156,21 @@ def check(chk):
     e = pol.func('AES256ColumnEncryptionPolicy.encrypt')
     d = pol.func('AES256ColumnEncryptionPolicy.decrypt')
     se, sd = src(e), src(d)
-    chk.judge('padding.PKCS7(AES256_BLOCK_SIZE).padder()' in se and 'return self.iv + encryptor.update(padded_bytes) + encryptor.finalize()' in se, 'C39.policy', e,
+    # the returned bytes: IV first, then the cipher's update output, then its finalize output - as a flat concatenation, however it is bracketed or named
+    def _concat(x):
+        if isinstance(x, ast.Name):
+            ds = [st for st in body_walk(e) if isinstance(st, ast.Assign) and len(st.targets) == 1 and src(st.targets[0]) == x.id]
+            if len(ds) == 1 and isinstance(ds[0].value, ast.BinOp) and isinstance(ds[0].value.op, ast.Add):
+                x = ds[0].value
+        if isinstance(x, ast.BinOp) and isinstance(x.op, ast.Add):
+            return _concat(x.left) + _concat(x.right)
+        return [src(x)]
+    rets39 = [r for r in body_walk(e) if isinstance(r, ast.Return) and r.value is not None]
+    parts39 = _concat(rets39[0].value) if len(rets39) == 1 else []
+    enc_names = [src(st.targets[0]) for st in body_walk(e) if isinstance(st, ast.Assign) and src(st.value).endswith('.encryptor()')]
+    ok_layout = len(parts39) == 3 and parts39[0] == 'self.iv' and parts39[1].endswith('.update(padded_bytes)') and parts39[2].endswith('.finalize()') and \
+        parts39[1].split('.update(')[0] == parts39[2].split('.finalize(')[0]
+    chk.judge('padding.PKCS7(AES256_BLOCK_SIZE).padder()' in se and ok_layout, 'C39.policy', e,
               'encrypt: PKCS7 pad, encrypt, prepend the IV', 'encrypt output layout changed')
     chk.judge('iv = bytes[:AES256_BLOCK_SIZE_BYTES]' in sd and 'encrypted_bytes = bytes[AES256_BLOCK_SIZE_BYTES:]' in sd and 'padding.PKCS7(AES256_BLOCK_SIZE).unpadder()' in sd
               and 'self._get_cipher(coldesc, iv=iv)' in sd, 'C39.policy', d, 'decrypt: split IV / ciphertext at the block size, decrypt with that IV, unpad', 'decrypt layout changed')
